@@ -784,7 +784,11 @@ def _check(ctx, runs, compare_model=True):
 
 
 def correspondence(ctx):
-    return _check(ctx, gen_runs(ctx))
+    from props import c10_extra
+
+    r = _check(ctx, gen_runs(ctx))
+    r.merge(c10_extra.run(ctx))
+    return r
 
 
 def search(ctx, prior):
@@ -793,10 +797,18 @@ def search(ctx, prior):
         inp = d.get("input")
         if isinstance(inp, dict) and "events" in inp:
             runs.insert(0, ("disagreement", inp["config"], inp["events"], inp.get("ending", [])))
-    return _check(ctx, runs, compare_model=False)
+    from props import c10_extra
+
+    r = _check(ctx, runs, compare_model=False)
+    r.merge(c10_extra.run(ctx))
+    return r
 
 
 def replay(ctx, doc):
+    if doc["failure"]["input"].get("kind") == "iteration-cut":
+        from props import c10_extra
+
+        return c10_extra.replay(doc["failure"]["input"])
     inp = doc["failure"]["input"]
     obs = run_one(inp["config"], inp["events"], inp.get("ending", []))
     for o in obs:
